@@ -119,9 +119,23 @@ where
             //   "Messages carried by UDP are restricted to 512 bytes (not
             //    counting the IP or UDP headers).  Longer messages are
             //    truncated and the TC bit is set in the header."
-            let max_response_size = ctx
+            let mut max_response_size = ctx
                 .max_response_size_hint()
                 .unwrap_or(MINIMUM_RESPONSE_BYTE_LEN);
+
+            // https://www.rfc-editor.org/rfc/rfc6891.html#section-7
+            //   "Lack of presence of an OPT record in a request MUST be
+            //    taken as an indication that the requestor does not
+            //    implement any part of this specification"
+            //
+            // Such a requestor can only be sent the 512 bytes of RFC 1035,
+            // whatever the server is willing to send to one that uses EDNS.
+            if request.message().opt().is_none() {
+                max_response_size = core::cmp::min(
+                    max_response_size,
+                    MINIMUM_RESPONSE_BYTE_LEN,
+                );
+            }
             let max_response_size = max_response_size as usize;
             let response_len = response.as_slice().len();
 
